@@ -18,6 +18,14 @@ CLAIMS = {
          "Decides the mechanism: from the three FAT constructors explored with reproducible=true, every exported method of the FAT FileSystem/File types and gpt/mbr Table.Write, no clock/RNG/UUID/env/pid/tempdir/goroutine/select/map-range is reachable except through timestamp.GetTime (whose clock read is shown unreachable when SOURCE_DATE_EPOCH parses) and on the GUID==\"\" edge; the volume's start offset flows only into I/O offsets; Disk.CreateFilesystem passes spec.Reproducible. Does not compare bytes of two runs.",
          "Assumes non-module callees other than the listed sources are deterministic functions of their arguments; CHA soundness.",
          "DESIGN.md §4 C14"),
+ "C03": ("value provenance of I/O offsets and receivers (additive decomposition, backend.Sub wrapping) + dominance of bounds tests",
+         "Decides structural necessary conditions of range confinement: each of the ~100 device ReadAt/WriteAt sites of the six filesystem packages is start-relative (start added exactly once across phis, helpers and callers, or receiver wrapped by backend.Sub with the raw backend only on the start==0 edge); MBR entry-area writes are confined to [446,512) and GPT region offsets depend on table geometry only; the partition stream's size test dominates its WriteAt and the offset is start+running total; SubStorage forwards offset+own offset; Finalize of iso9660/squashfs must consult the range size (today it does not: two known findings). Breaking any of these breaks the behaviour for some input; holding them does not establish it (FAT32 cluster-count overrun and ext4 allocator bounds are arithmetic and not covered).",
+         "go/ssa provenance is field-based and flow-insensitive across functions; host (workspace) files are told from the device by provenance (os.Open* vs backend values).",
+         "DESIGN.md §4 C03"),
+ "C13": ("type-width check on the def-use chains of Start/Size/End + dominance of size tests + provenance of slice bounds",
+         "Decides structural necessary conditions for both part.Partition implementations: no sub-64-bit multiply/add/shift or narrowing on values derived from Start/Size/End in WriteContents/ReadContents/GetStart/GetSize; the size test dominates the device write and success requires total == size; the bytes handed to the output writer are clamped by the remaining size (or chunk and sector size are the same constant); verifyBlockCopy turns digest inequality into an error and CopyPartitionRaw propagates read/write/verify errors. Does not decide which bytes are moved.",
+         "Path-insensitive; the mbr clamp exemption relies on deep provenance showing chunk length and sector multiplier are the same constant.",
+         "DESIGN.md §4 C13"),
 }
 
 NOT_APPLICABLE = {
